@@ -164,6 +164,7 @@ class Rig:
         del self.sent[:]
         del self.entries[:]
         e0 = len(vt.errors)
+        base = dev.snapshot()
         for (src, f, bc) in norm(frames):
             dev.peers[src].send(f, None if bc else C.DEVICE)
         ok1 = vt.run(until=vt.now + 0.001, max_loops=20000)
@@ -175,7 +176,11 @@ class Rig:
                "net": self.netdigest()}
         stray0 = [[d, mask(o)] for (c, d, o) in self.sent if c is None and not is_unconf(o)]
         k = len(self.sent)
-        ok2 = vt.run(max_loops=20000)
+        # a BOUNDED time, longer than any transaction can live: what is scheduled then and was not before
+        # the batch is a leftover unless the unchanged code (and, for the network layer, the model) says so
+        ok2 = vt.run(until=vt.now + dev.bound(), max_loops=20000)
+        ltasks, bad = dev.leftover(base)
+        ok2 = vt.run(max_loops=20000) and ok2
         late = [[d, mask(o)] for (c, d, o) in self.sent[k:] if not is_unconf(o)]
         res = dev.residue()
         fin = {"out": stray0 + late, "sv": self.digest(), "cl": len(dev.smap.clientTransactions), "net": self.netdigest()}
@@ -183,7 +188,8 @@ class Rig:
                 "delivered": self.n, "errors": [list(e) for e in vt.errors[e0:][:3]],
                 "dcc": dcc_code(dev.smap.dccEnableDisable),
                 "iam": bool(getattr(dev.app.deviceInfoCache, "cache", None)),
-                "paths": len(dev.nsap.router_info_cache.path_info)}
+                "paths": len(dev.nsap.router_info_cache.path_info),
+                "late_tasks": ltasks, "unexpected_tasks": bad}
 
 
 def norm(frames):
@@ -603,6 +609,7 @@ ANSWERED = COUNTED + ("npci", "segresp", "hostile")               # at least one
 
 
 _FRESH = {}
+C_BOUND = [90.0]
 
 
 def fresh_apdu(local_frame):
@@ -632,6 +639,9 @@ def classify_routed(f):
 
 def oracle(ctx, stream, case, frames, label, rec):
     """the property evaluated on what the REAL device did with one batch (no model involved)"""
+    if rec["unexpected_tasks"]:
+        ctx.fail("residue-timer", case, "still scheduled %.0f s after the batch, when every transaction must be over: %r" % (
+            0.0 + C_BOUND[0], rec["unexpected_tasks"]), errors=rec["errors"])
     if stream not in ("shapes", "history", "replay"):
         return
     group = label.split("/")[0]
@@ -756,8 +766,12 @@ def judge(ctx, stream, frames, label, pos, rec, mrep, hist=()):
         # transactions whose timers are due at the same instant fire in task-installation order in the
         # scheduler and in list order in the model: compare per transaction (they are independent, C11)
         qi, qm = sorted(qi, key=by_invoke), sorted(qm, key=by_invoke)
-    impl_view.append({"q": qi, "sv": rec["fin"]["sv"], "cl": rec["fin"]["cl"], "net": rec["fin"]["net"]})
-    model_view.append({"q": qm, "sv": q["sv"], "cl": q["cl"], "net": q["net"] + [[q["net"][0]]]})
+    # timers other than the transactions' still pending after the bounded settle time (the application's
+    # DeviceCommunicationControl re-enable timer aside): the model knows one, the Network-Number-Is answer
+    pend_i = sorted(d[0] for d in rec["late_tasks"] if not d[0].endswith(":enable_communications"))
+    pend_m = ["_FunctionTask:network_number_is"] if q.get("pend") else []
+    impl_view.append({"q": qi, "sv": rec["fin"]["sv"], "cl": rec["fin"]["cl"], "net": rec["fin"]["net"], "pend": pend_i})
+    model_view.append({"q": qm, "sv": q["sv"], "cl": q["cl"], "net": q["net"] + [[q["net"][0]]], "pend": pend_m})
     ctx.count("model/quiesce", (len(rec["mid"]["sv"]), q.get("br")))
     if core.canon(impl_view) != core.canon(model_view):
         # keep the first difference readable
